@@ -20,6 +20,7 @@
     queue is the segment at snd_una (a data-path invariant, C08); absence of [Fault] along the runs.
     No-wrap hypotheses are explicit: [nowrap s H] / [H + 120000 < 2^31]; clock value 0 is excluded (0 means "timer off"). *)
 From Coq Require Import ZArith List Bool.
+From Nice Require Ptcp.PtcpModel Ptcp.PtcpHoare Ptcp.ProcessPhases Ptcp.FinAckProofs.
 From Nice Require Import Base.Bytes Ptcp.PtcpModel Ptcp.PtcpProofs Ptcp.TimerInvProofs Ptcp.TimerReachProofs Ptcp.SendSpecs
   Ptcp.SilenceArith Ptcp.SilenceProofs Ptcp.ClockRound Ptcp.SilenceRun Ptcp.BackoffProofs Ptcp.C09Theorems Ptcp.WindowUpdateProofs Ptcp.C09Examples.
 Import ListNotations.
@@ -204,3 +205,13 @@ Example C09_example_backoff :   (* ex_run2_12 := ideal_run 12 ex_s2 1030 *)
   | None => False
   end.
 Proof. exact ex_run2_12_result. Qed.
+
+(** fix 6cefc93 (process()): the segment that completes the stream up to the peer's FIN is acknowledged at once whatever the delayed-ACK setting -
+    the flag handed to attempt_send is sfImmediateAck for every socket state, receive buffer content and out-of-order list.  Before the fix a
+    data-bearing segment got sfDelayedAck; a socket in FIN-WAIT-2 then left TIME-WAIT (1 ms) before the ACK was due and the peer, stuck in CLOSING,
+    was reset a minute later (witness: corpus case hK9 of props/ptcp_common.py). *)
+Theorem C09_fin_completing_segment_acked_at_once : forall seg s seq1 data1 ev,
+  Nice.Ptcp.PtcpModel.g_seq seg = Nice.Ptcp.PtcpModel.rcv_nxt s ->
+  Nice.Ptcp.PtcpHoare.wp (Nice.Ptcp.ProcessPhases.data_phase seg true s seq1 data1) s ev
+    (fun r _ _ => fst r = Nice.Ptcp.PtcpModel.sfImmediateAck).
+Proof. exact Nice.Ptcp.FinAckProofs.data_phase_fin_acked_at_once. Qed.
